@@ -47,34 +47,49 @@ Fixpoint mapM {A B} (f : A -> option B) (l : list A) : option (list B) :=
    ctxv     ctx.context_values, top first (Context(): [0])
    top_in   ctx.inputs[0] = [values, cursor]
    inner    ctx.inputs[1:], innermost scope first
-   fdepth   len(ctx.function_stack); sdepth = len(ctx.stacks)
+   fstack   ctx.function_stack, innermost first (None: a lambda entered with self=None);
+            sdepth = len(ctx.stacks)
    reg      ctx.register; vars = the VAR_<name> globals of the exec namespace;
-   locs     the VAR_<name> locals of the running function (its named parameters)
+   locs     the VAR_<name> locals of the running function (its named parameters);
+   this     the Python local `this` of the running def (the function itself)
    out      everything printed so far; printed = ctx.printed *)
 Definition scope := (list value * nat)%type.
 Record state := mkSt {
-  stk : list value; ctxv : list value; top_in : scope; inner : list scope; fdepth : nat; sdepth : nat; reg : value; vars : list (str * value); locs : list (str * value); out : str; printed : bool }.
+  stk : list value;
+  ctxv : list value;
+  top_in : scope;
+  inner : list scope;
+  fstack : list (option closure);
+  sdepth : nat;
+  reg : value;
+  vars : list (str * value);
+  locs : list (str * value);
+  this : option closure;
+  out : str;
+  printed : bool }.
 
 Definition set_stk (s : state) (x : list value) : state :=
-  mkSt x (ctxv s) (top_in s) (inner s) (fdepth s) (sdepth s) (reg s) (vars s) (locs s) (out s) (printed s).
+  mkSt x (ctxv s) (top_in s) (inner s) (fstack s) (sdepth s) (reg s) (vars s) (locs s) (this s) (out s) (printed s).
 Definition set_ctxv (s : state) (x : list value) : state :=
-  mkSt (stk s) x (top_in s) (inner s) (fdepth s) (sdepth s) (reg s) (vars s) (locs s) (out s) (printed s).
+  mkSt (stk s) x (top_in s) (inner s) (fstack s) (sdepth s) (reg s) (vars s) (locs s) (this s) (out s) (printed s).
 Definition set_top_in (s : state) (x : scope) : state :=
-  mkSt (stk s) (ctxv s) x (inner s) (fdepth s) (sdepth s) (reg s) (vars s) (locs s) (out s) (printed s).
+  mkSt (stk s) (ctxv s) x (inner s) (fstack s) (sdepth s) (reg s) (vars s) (locs s) (this s) (out s) (printed s).
 Definition set_inner (s : state) (x : list scope) : state :=
-  mkSt (stk s) (ctxv s) (top_in s) x (fdepth s) (sdepth s) (reg s) (vars s) (locs s) (out s) (printed s).
-Definition set_fdepth (s : state) (x : nat) : state :=
-  mkSt (stk s) (ctxv s) (top_in s) (inner s) x (sdepth s) (reg s) (vars s) (locs s) (out s) (printed s).
+  mkSt (stk s) (ctxv s) (top_in s) x (fstack s) (sdepth s) (reg s) (vars s) (locs s) (this s) (out s) (printed s).
+Definition set_fstack (s : state) (x : list (option closure)) : state :=
+  mkSt (stk s) (ctxv s) (top_in s) (inner s) x (sdepth s) (reg s) (vars s) (locs s) (this s) (out s) (printed s).
 Definition set_sdepth (s : state) (x : nat) : state :=
-  mkSt (stk s) (ctxv s) (top_in s) (inner s) (fdepth s) x (reg s) (vars s) (locs s) (out s) (printed s).
+  mkSt (stk s) (ctxv s) (top_in s) (inner s) (fstack s) x (reg s) (vars s) (locs s) (this s) (out s) (printed s).
 Definition set_reg (s : state) (x : value) : state :=
-  mkSt (stk s) (ctxv s) (top_in s) (inner s) (fdepth s) (sdepth s) x (vars s) (locs s) (out s) (printed s).
+  mkSt (stk s) (ctxv s) (top_in s) (inner s) (fstack s) (sdepth s) x (vars s) (locs s) (this s) (out s) (printed s).
 Definition set_vars (s : state) (x : list (str * value)) : state :=
-  mkSt (stk s) (ctxv s) (top_in s) (inner s) (fdepth s) (sdepth s) (reg s) x (locs s) (out s) (printed s).
+  mkSt (stk s) (ctxv s) (top_in s) (inner s) (fstack s) (sdepth s) (reg s) x (locs s) (this s) (out s) (printed s).
 Definition set_locs (s : state) (x : list (str * value)) : state :=
-  mkSt (stk s) (ctxv s) (top_in s) (inner s) (fdepth s) (sdepth s) (reg s) (vars s) x (out s) (printed s).
+  mkSt (stk s) (ctxv s) (top_in s) (inner s) (fstack s) (sdepth s) (reg s) (vars s) x (this s) (out s) (printed s).
+Definition set_this (s : state) (x : option closure) : state :=
+  mkSt (stk s) (ctxv s) (top_in s) (inner s) (fstack s) (sdepth s) (reg s) (vars s) (locs s) x (out s) (printed s).
 Definition emit (s : state) (text : str) : state :=
-  mkSt (stk s) (ctxv s) (top_in s) (inner s) (fdepth s) (sdepth s) (reg s) (vars s) (locs s) (out s ++ text) true.
+  mkSt (stk s) (ctxv s) (top_in s) (inner s) (fstack s) (sdepth s) (reg s) (vars s) (locs s) (this s) (out s ++ text) true.
 
 Definition push (v : value) (s : state) : state := set_stk s (v :: stk s).
 
@@ -290,7 +305,9 @@ Fixpoint pure_struct (x : struct) : bool :=
   | SList its => forallb (forallb pure_struct) its
   | SMod1 m a => negb (N.eqb m 38) && pure_struct a
   | SMod2 _ a b => pure_struct a && pure_struct b
-  | _ => false
+  | SBreak _ => true
+  | SRecurse (Some PFor) | SRecurse (Some PLambda) => true      (* continue; `this(...)`: the same pure body *)
+  | _ => false                                                  (* incl. x under a modifier: reads ctx.function_stack when forced *)
   end.
 Definition pure_list (l : list struct) : bool := forallb pure_struct l.
 
@@ -711,7 +728,7 @@ Definition cfg_of (f : flag) : cfg :=
   end.
 
 Definition init_state (f : flag) (inputs : list value) : state :=
-  mkSt (match f with FlH => [VInt 100] | _ => [] end) [VInt 0] (inputs, O) [] O 2 (VInt 0) [] [] [] false.
+  mkSt (match f with FlH => [VInt 100] | _ => [] end) [VInt 0] (inputs, O) [] [] 2 (VInt 0) [] [] None [] false.
 
 (* vy_str(x) for the items of join *)
 Definition str_of (v : value) : option str := repr v.
@@ -777,7 +794,8 @@ Definition finish (app : app_t) (f : flag) (s : state) : xres state :=
    keeps every assignment (variable set, named loop variable, function definition) at the
    top level, where the name is a global of the exec namespace.  Outside the core and
    listed in the report: string / character / compressed literals, the ghost variable and
-   `_` names, break / recurse (X x), triadic modifiers, elements outside `core_keys`.  `core_ok indef` is the part the evaluators themselves enforce (ENotCore);
+   `_` names, triadic modifiers, elements outside `core_keys`, early exits (X x) where the
+   emitted line is not what the documents say (see break_core / recurse_core).  `core_ok indef` is the part the evaluators themselves enforce (ENotCore);
    `scope_ok` adds the static name discipline under which the machine's treatment of Python
    scoping is right: a named parameter is a local of its function, a nested def reading it
    would go through a closure cell, which the model does not have. *)
@@ -793,26 +811,62 @@ Definition token_core (indef : bool) (t : token) : bool :=
 Definition arity_ok (a : option Z) : bool := match a with None => true | Some z => 0 <=? z end.
 Definition param_ok (p : str) : bool := match param_of p with Some _ => true | None => false end.
 
-Fixpoint core_ok (indef : bool) (x : struct) : bool :=
+(* where an early exit stands: il = the innermost enclosing loop reached through ifs only
+   (none / for / while), lam = directly (through ifs) in the body of a plain lambda *)
+Inductive lk := LNone | LFor | LWhile.
+Definition in_loop (il : lk) : bool := match il with LNone => false | _ => true end.
+Definition in_for (il : lk) : bool := match il with LFor => true | _ => false end.
+
+(* X by the parent class the parser recorded (Transpile.break_text): break in a loop, early
+   return in a plain lambda, nothing at top level.  In a map / filter / sort lambda, a named
+   function, a list item or after a modifier the emitted line is `pass` although the documents
+   say "break out of the current loop or function": outside the core (reported). *)
+Definition break_core (il : lk) (lam : bool) (p : option pkind) : bool :=
+  match p with
+  | Some PFor | Some PWhile => in_loop il
+  | Some PLambda => lam
+  | None | Some PIf => true
+  | _ => false
+  end.
+
+(* x (Transpile.recurse_text): continue in a for loop, recursion in a plain lambda, the
+   enclosing function under a modifier, print the stack at top level.  Outside the core: x in
+   a while body (`continue` re-tests the stale condition value), in a top-level if (`pass`), in
+   a named function / map / filter / sort lambda / list item (prints the stack instead of
+   recursing). *)
+Definition recurse_core (indef : bool) (il : lk) (lam : bool) (p : option pkind) : bool :=
+  match p with
+  | Some PFor => in_for il
+  | Some PLambda => lam
+  | Some PMonadic | Some PDyadic | Some PTriadic => true
+  | None => negb indef
+  | _ => false
+  end.
+
+Fixpoint core_ok (indef : bool) (il : lk) (lam : bool) (x : struct) : bool :=
   match x with
   | SGeneric t => token_core indef t
-  | SBreak _ | SRecurse _ => false
-  | SIf bs => forallb (forallb (core_ok indef)) bs
+  | SBreak p => break_core il lam p
+  | SRecurse p => recurse_core indef il lam p
+  | SIf bs => forallb (forallb (core_ok indef il lam)) bs
   | SFor names b =>
       match names with [] => true | n :: _ => name_ok (keep re_keep_for n) && negb indef end
-      && forallb (core_ok indef) b
-  | SWhile c b => forallb (core_ok indef) c && forallb (core_ok indef) b
+      && forallb (core_ok indef LFor false) b
+  | SWhile c b => forallb (core_ok indef LNone false) c && forallb (core_ok indef LWhile false) b
   | SFnCall n => name_ok (keep re_keep_fncall n)
   | SFnDef n ps b =>
-      negb indef && name_ok (keep re_keep_fndef n) && forallb param_ok ps && forallb (core_ok true) b
-  | SLambda a b => arity_ok a && forallb (core_ok true) b
-  | SLamOp _ b => forallb (core_ok true) b
-  | SList its => forallb (forallb (core_ok true)) its
-  | SMod1 m a => mem m mod1_keys && core_ok true a
-  | SMod2 m a b => mem m mod2_keys && core_ok true a && core_ok true b
+      negb indef && name_ok (keep re_keep_fndef n) && forallb param_ok ps && forallb (core_ok true LNone false) b
+  | SLambda a b => arity_ok a && forallb (core_ok true LNone true) b
+  | SLamOp _ b => forallb (core_ok true LNone false) b
+  | SList its => forallb (forallb (core_ok true LNone false)) its
+  | SMod1 m a => mem m mod1_keys && core_ok true LNone true a
+  | SMod2 m a b => mem m mod2_keys && core_ok true LNone true a && core_ok true LNone true b
   | SMod3 _ _ _ _ => false
   end.
-Definition core_ok_list (indef : bool) (l : list struct) : bool := forallb (core_ok indef) l.
+Definition core_ok_list (indef : bool) (il : lk) (lam : bool) (l : list struct) : bool := forallb (core_ok indef il lam) l.
+
+(* the body of a function value may be entered: a lambda's own early exits are allowed in it *)
+Definition body_ok (c : closure) : bool := core_ok_list true LNone (negb (c_named c)) (c_body c).
 
 (* ---- names a nested def must not read: loc = the named parameters of the function whose body
    this is (directly), hid = the named parameters of enclosing functions seen from inside a
@@ -838,9 +892,30 @@ Fixpoint scope_ok (loc hid : list str) (x : struct) : bool :=
   | SBreak _ | SRecurse _ => true
   end.
 
+(* the parser marks EVERYTHING after a modifier with the modifier as parent; x then calls
+   ctx.function_stack[-2].  That is "the current function" only when the x stands inside the
+   operand itself (the operand is wrapped in a lambda of its own, so [-2] is the function the
+   modifier is used in); after the operand, in the rest of the body, it would be the caller's
+   caller: outside the core.  opw = directly (through ifs) inside a wrapped operand. *)
+Fixpoint recurse_ok (opw : bool) (x : struct) : bool :=
+  match x with
+  | SRecurse (Some PMonadic) | SRecurse (Some PDyadic) | SRecurse (Some PTriadic) => opw
+  | SGeneric _ | SFnCall _ | SBreak _ | SRecurse _ => true
+  | SIf bs => forallb (forallb (recurse_ok opw)) bs
+  | SFor _ b => forallb (recurse_ok false) b
+  | SWhile c b => forallb (recurse_ok false) c && forallb (recurse_ok false) b
+  | SFnDef _ _ b => forallb (recurse_ok false) b
+  | SLambda _ b => forallb (recurse_ok false) b
+  | SLamOp _ b => forallb (recurse_ok false) b
+  | SList its => forallb (forallb (recurse_ok false)) its
+  | SMod1 _ a => recurse_ok true a
+  | SMod2 _ a b => recurse_ok true a && recurse_ok true b
+  | SMod3 _ a b c => recurse_ok true a && recurse_ok true b && recurse_ok true c
+  end.
+
 (* what C01 quantifies over: whole programs *)
 Definition core_program (p : list struct) : bool :=
-  core_ok_list false p && forallb (scope_ok [] []) p.
+  core_ok_list false LNone false p && forallb (scope_ok [] []) p && forallb (recurse_ok false) p.
 
 (* the parameters of a function definition *)
 Definition params_of (ps : list str) : option (list param) := mapM param_of ps.
@@ -848,11 +923,20 @@ Definition mk_named (ps : list param) (body : list struct) : closure := mkClo tr
 Definition param_names (ps : list param) : list str :=
   flat_map (fun p => match p with PName x => [x] | _ => [] end) ps.
 
-(* running a statement list: the first abnormal outcome ends it *)
-Fixpoint seq_run (step : struct -> state -> xres state) (p : list struct) (s : state) : xres state :=
+(* ---- how a statement ends: normally, or by an early exit (X / x) -------------------------------------------
+   SBrk leaves the innermost loop, SCont goes to its next iteration, SRet v leaves the running
+   lambda with the value v *)
+Inductive sig := SNorm | SBrk | SCont | SRet (v : value).
+Definition fres := xres (sig * state).
+Definition norm (r : xres state) : fres := xdo s <- r; XOk (SNorm, s).
+
+(* running a statement list: the first error or early exit ends it *)
+Fixpoint seq_run (step : struct -> state -> fres) (p : list struct) (s : state) : fres :=
   match p with
-  | [] => XOk s
-  | x :: r => xdo s1 <- step x s; seq_run step r s1
+  | [] => XOk (SNorm, s)
+  | x :: r =>
+      xdo (g, s1) <- step x s;
+      match g with SNorm => seq_run step r s1 | _ => XOk (g, s1) end
   end.
 
 (* ---- comparison with observations of the implementation (used by the correspondence only) ------------------
